@@ -1,6 +1,6 @@
 import ClaripyProofs.Lemmas.AST.RulesSound2
 import ClaripyProofs.Lemmas.AST.FoldSound
-import ClaripyProofs.Lemmas.AST.ACNormSound
+import ClaripyProofs.Lemmas.AST.ACNormSoundB
 /-!
 # C01 — bit-vector and Boolean expressions mean exactly what the written operations say
 
@@ -63,6 +63,17 @@ theorem C01_ac_rewrite_sound_width (k : ACK) (w : Nat) (lhs rhs : Expr) (hw : lh
   rw [hw] at this
   cases this
   exact acEquiv_sound k w lhs rhs h env n hl
+
+/-- Boolean `And` / `Or` nodes (boolean_and_simplifier / boolean_or_simplifier): flattening, dropping identity literals,
+an absorbing literal deciding the node, dropping repeated operands, reordering — a rewrite accepted by `bcEquiv` preserves
+the Boolean a well-typed node denotes.  Every number of operands and nesting depth. -/
+theorem C01_bool_ac_rewrite_sound (k : BK) (lhs rhs : Expr) (h : bcEquiv k lhs rhs = true) (env : Env) (b : Bool)
+    (hl : eval env lhs = .bool b) : eval env rhs = eval env lhs := bcEquiv_sound k lhs rhs h env b hl
+
+example : bcEquiv .and (.app .and [.app .and [.bools "p", .boolv true], .app .and [.bools "q", .bools "p"]])
+    (.app .and [.bools "p", .bools "q"]) = true := by decide
+example : bcEquiv .or (.app .or [.bools "p", .boolv true, .bools "q"]) (.boolv true) = true := by decide
+example : bcEquiv .and (.app .and [.bools "p", .bools "q"]) (.bools "p") = false := by decide
 
 /-- the check is not vacuous: it accepts `(a ^ b) ^ (b ^ a) ⇒ 0` and `(a + 3) + (5 + b) ⇒ a + b + 8`, and rejects `a + b ⇒ a + c` -/
 example : acEquiv .bxor 8 (.app .bxor [.app .bxor [.bvs "a" 8, .bvs "b" 8], .app .bxor [.bvs "b" 8, .bvs "a" 8]]) (.bvv 0 8) = true := by
